@@ -53,7 +53,7 @@ def pipeline_binding(out, srcs, tier):
     try:
         r = common.tlc("Pipeline", "Pipeline_repaired.cfg", wd, timeout=1800)
         out.add_tlc(r)
-        n = 300 if tier == "quick" else 3000
+        n = 600 if tier == "quick" else 6000
         jobs = [(svg, k % 2) for k, (name, svg, adoc) in enumerate(srcs[:: max(1, len(srcs) // n)][:n])]
         recs = common.pmap(_steps, jobs)
         verdicts, st, tr = common.validate_traces("TracePipeline", "TracePipeline.cfg", recs, wd)
@@ -64,12 +64,14 @@ def pipeline_binding(out, srcs, tier):
             k = v
             hist[k] = hist.get(k, 0) + 1
         out.coverage["parts"]["pipeline_step_order"] = hist
-        out.coverage["parts"]["pipeline_drift_examples"] = sorted({v for v in verdicts if v.startswith("drift")})[:3]
+        out.coverage["parts"]["pipeline_drift_examples"] = [
+            {"verdict": v, "drop_unsupported": j[1], "input": j[0]}
+            for v, j in zip(verdicts, jobs) if v.startswith("drift")][:3]
         ndrift = sum(n_ for k, n_ in hist.items() if k.startswith("drift"))
         out.coverage["drift"] += ndrift
         if ndrift:
             print("MODEL-DRIFT C07: the recorded topicosvg step order is not a run of Pipeline.tla: %s"
-                  % out.coverage["parts"]["pipeline_drift_examples"][:1])
+                  % [e["verdict"] for e in out.coverage["parts"]["pipeline_drift_examples"]][:1])
     finally:
         common.cleanup(wd)
 
